@@ -7,7 +7,7 @@ src=$(readlink -f "$1"); prop=$2; tier=${3:-quick}; lid=$(echo $prop | tr A-Z a-
 cd "$(dirname "$0")/.."
 k=1; while [ -e seeded/$prop-$k ]; do k=$((k+1)); done; id=$prop-$k
 mkdir -p seeded/$id   # reserve
-tag=$$; wt=/tmp/seedverify_$tag; log=/tmp/seedverify_$tag.log
+tag=$$; wt=/tmp/seedverify_$tag/repo_$tag; mkdir -p /tmp/seedverify_$tag; log=/tmp/seedverify_$tag.log
 git -C /repo worktree add -q --detach $wt HEAD || exit 2
 cp /repo/gemclus/tree/_utils.cpython-312-x86_64-linux-gnu.so $wt/gemclus/tree/
 cp $src/demo_$lid.py $wt/
